@@ -71,6 +71,12 @@ def table_culprits(facts: dict, tables: list[str]) -> dict:
             out[t] = cls(lambda a: a["ctorReadsConfig"] or not a["setConfigCanonical"], lambda a: {"ctorReadsConfig": a["ctorReadsConfig"], "setConfigCanonical": a["setConfigCanonical"]})
         elif t in ("T10", "T17"):
             out[t] = {k: {"sizePreserving": v["sizePreserving"], "monotone": v["monotone"], "opaque": v["opaque"][:3]} for k, v in steps.items()} if False else "see .work/facts.json: steps.classes (sizePreserving / monotone per class) and steps.coreShapes"
+        elif t in ("T02", "T13", "T14", "T19", "T20"):
+            # pin obligations: which fingerprints moved (the expected values are in the Props file, the current ones in the regenerated facts)
+            txt = (lean.LEAN_DIR / "PvModel" / "Props" / f"{t}.lean").read_text()
+            exp = dict(re.findall(r'\("([^"]+)", "([0-9a-f]+|missing)"\)', txt))
+            cur = dict(core.get("pins", []))
+            out[t] = {"source_text_changed": sorted(k for k, v in exp.items() if cur.get(k) != v)}
         elif t in ("T04", "T05", "T11"):
             out[t] = {k: core.get(k) for k in ("prologueOrder", "objectiveCallers", "initAgentShape", "solveShape", "initialSolutionShape", "poolResultsShape", "poolExecutorShape", "whileLoops")}
     return out
